@@ -111,8 +111,8 @@ impl TraitHandler for OrdStructHandler {
             token_stream.extend(quote! {
                 impl #impl_generics ::core::cmp::PartialOrd for #ident #ty_generics #where_clause {
                     #[inline]
-                    fn partial_cmp(&self, other: &Self) -> Option<::core::cmp::Ordering> {
-                        Some(::core::cmp::Ord::cmp(self, other))
+                    fn partial_cmp(&self, other: &Self) -> ::core::option::Option<::core::cmp::Ordering> {
+                        ::core::option::Option::Some(::core::cmp::Ord::cmp(self, other))
                     }
                 }
             });
